@@ -1456,6 +1456,65 @@ impl<K: KeyT> World<K> {
                 }
             }
 
+            // CT <r|t> <ctor> <cap> <lim> [n]: build an interner through one of the public constructors, report what it
+            // got (bucket capacity, limit, usage, len) and drop it
+            "CT" => {
+                use lasso::{Capacity, MemoryLimits, Spur};
+                use std::collections::hash_map::RandomState;
+                let threaded = match toks.get(1) {
+                    Some(&"r") => false,
+                    Some(&"t") => true,
+                    _ => return x(),
+                };
+                let cap = match toks.get(3).and_then(|t| t.parse::<usize>().ok()).and_then(std::num::NonZeroUsize::new) {
+                    Some(c) => c,
+                    None => return x(),
+                };
+                let lim = match toks.get(4).and_then(|t| parse_lim(t)) {
+                    Some(l) => l,
+                    None => return x(),
+                };
+                let n = toks.get(5).and_then(|t| t.parse::<usize>().ok()).unwrap_or(7);
+                let which = match toks.get(2) {
+                    Some(w) => w.to_string(),
+                    None => return x(),
+                };
+                let fam = VHasher::default();
+                let res = guard(move || -> Option<lasso::verif::ArenaAudit> {
+                    let c = Capacity::new(n, cap);
+                    let m = MemoryLimits::new(lim);
+                    macro_rules! build {
+                        ($T:ident) => {
+                            match which.as_str() {
+                                "new" => Some(lasso::$T::<Spur, RandomState>::new().verif_audit()),
+                                "default" => Some(<lasso::$T<Spur, RandomState> as Default>::default().verif_audit()),
+                                "with_capacity" => Some(lasso::$T::<Spur, RandomState>::with_capacity(c).verif_audit()),
+                                "with_limits" => Some(lasso::$T::<Spur, RandomState>::with_memory_limits(m).verif_audit()),
+                                "with_capacity_and_limits" => Some(lasso::$T::<Spur, RandomState>::with_capacity_and_memory_limits(c, m).verif_audit()),
+                                "with_hasher" => Some(lasso::$T::<Spur, VHasher>::with_hasher(fam.clone()).verif_audit()),
+                                "with_capacity_and_hasher" => Some(lasso::$T::<Spur, VHasher>::with_capacity_and_hasher(c, fam.clone()).verif_audit()),
+                                "full" => Some(lasso::$T::<Spur, VHasher>::with_capacity_memory_limits_and_hasher(c, m, fam.clone()).verif_audit()),
+                                "cap_for_strings" => Some(lasso::$T::<Spur, RandomState>::with_capacity(Capacity::for_strings(n)).verif_audit()),
+                                "cap_for_bytes" => Some(lasso::$T::<Spur, RandomState>::with_capacity(Capacity::for_bytes(cap)).verif_audit()),
+                                "cap_minimal" => Some(lasso::$T::<Spur, RandomState>::with_capacity(Capacity::minimal()).verif_audit()),
+                                "lim_for_memory_usage" => Some(lasso::$T::<Spur, RandomState>::with_memory_limits(MemoryLimits::for_memory_usage(lim)).verif_audit()),
+                                _ => None,
+                            }
+                        };
+                    }
+                    if threaded { build!(ThreadedRodeo) } else { build!(Rodeo) }
+                });
+                match res {
+                    Some(Some(a)) => {
+                        let limit = if a.max_memory_usage == usize::MAX { "max".to_string() } else { a.max_memory_usage.to_string() };
+                        let blocks: Vec<String> = a.blocks.iter().map(|b| format!("{}:{}", b.capacity, b.used)).collect();
+                        (format!("CT:{},{},{},{}", a.bucket_capacity, limit, a.memory_usage, blocks.join("+")), Ev::Nothing)
+                    }
+                    Some(None) => x(),
+                    None => ("P".to_string(), Ev::Nothing),
+                }
+            }
+
             // PQ <slot> <n>: n threads query the shared object at once (every key index up to len, every pool
             // string and every stored string through get where the kind has it, a full iteration); all threads must
             // see exactly what the calling thread sees (addresses included)
